@@ -457,9 +457,9 @@ Definition prun (v : variant) (c : pconfig) (sched : list nat) : pconfig := run 
 
 (* a bound on the synchronous calls inside one poll that is never reached: a status message is cut
    at MAX_STATUS_MESSAGE_LENGTH, escaping multiplies by at most 6 *)
-Definition poll_fuel : nat := N.to_nat 30000.
+Definition poll_bound : positive := 65536%positive.
 
-Definition ppoll (v : variant) (c : pconfig) (t : nat) : pconfig := poll (handle v) is_sync poll_fuel c t.
+Definition ppoll (v : variant) (c : pconfig) (t : nat) : pconfig := fst (poll_p (handle v) is_sync poll_bound c t).
 
 (* snapshots (flags, tick, clock) after each hand-polled step *)
 Fixpoint poll_snapshots (v : variant) (c : pconfig) (sched : list nat) : list (N * Z * Z) * pconfig :=
